@@ -5,7 +5,12 @@ sexp sexp_user_exception (sexp ctx, sexp self, const char *msg, sexp x) { return
 sexp sexp_type_exception (sexp ctx, sexp self, sexp_uint_t type_id, sexp x) { return vm_new_exception(); }
 sexp sexp_xtype_exception (sexp ctx, sexp self, const char *msg, sexp x) { return vm_new_exception(); }
 sexp sexp_range_exception (sexp ctx, sexp obj, sexp start, sexp end) { return vm_new_exception(); }
-sexp sexp_cons_op (sexp ctx, sexp self, sexp_sint_t n, sexp head, sexp tail) { return vm_new_pair(head, tail); }
+sexp sexp_cons_op (sexp ctx, sexp self, sexp_sint_t n, sexp head, sexp tail) {
+#ifdef VERIF_GC
+  vm_collect(ctx);             /* a collection before the pair is allocated; head and tail are not roots by themselves */
+#endif
+  return vm_new_pair(head, tail);
+}
 sexp sexp_make_flonum (sexp ctx, double f) { return vm_new_flonum(f); }
 /* generic arithmetic hand-over targets: record the operands, return some valid number */
 sexp vm_handover_fn[1]; sexp vm_handover_a, vm_handover_b; int vm_handover;
